@@ -24,6 +24,7 @@ type Task struct {
 	ioBroadcast     app.BufferedBroadcast
 	statusBroadcast app.Broadcast
 	closeCB         func()
+	afterCloseCB    func() // called after the task scope has closed (signs off from the parent scope)
 }
 
 // NewTask create a Taks instance
@@ -115,7 +116,11 @@ func (task *Task) Close() (err error) {
 	} else {
 		task.statusBroadcast.Printf("\n [%s]... %s", task.FullName(), task.status)
 	}
-	return task.ctx.Scope().Close()
+	err = task.ctx.Scope().Close()
+	if task.afterCloseCB != nil {
+		task.afterCloseCB()
+	}
+	return err
 }
 
 // Wait for task finish
